@@ -345,9 +345,8 @@ class FileBufferedCollection(BufferedCollection):
                 collection._flush(force=force)
             except (OSError, MetadataError) as err:
                 issues[collection._filename] = err
-        if not issues:
-            cls._buffered_collections = remaining_collections
-        else:
+        cls._buffered_collections = remaining_collections
+        if issues:
             raise BufferedError(issues)
 
     @classmethod
